@@ -67,6 +67,7 @@ instance : PPOps Float where
   atan2 := Float.atan2
   r32 x := x.toFloat32.toFloat
   truncI32 x := x.toInt32.toInt
+  ceil := Float.ceil
   pi := Float.ofBits 0x400921FB54442D18
   posInf := fInf
   negInf := fNegInf
